@@ -1078,6 +1078,7 @@ func (e *c05Env) zsession(v int) (map[string]any, error) {
 //  v=0: the server's tty echoes the command, trz starts, the dropped files are uploaded
 //  v=1: echo, but no trz on the server: the drag times out after 3 s
 //  v=2: a server without echo that prints nothing for 3 s
+//  v=3: a keystroke within the 300 ms grace period cancels the drop (uploadDragFiles finds dragging reset)
 func (e *c05Env) dragSession(v int) (map[string]any, error) {
 	obs := map[string]any{}
 	before := e.srvOther.Load()
@@ -1095,6 +1096,22 @@ func (e *c05Env) dragSession(v int) (map[string]any, error) {
 		return obs, nil
 	}
 	obs["claimed"] = true
+	if v == 3 {
+		kc, err := e.feed("in", "plain", []byte{byte('a' + e.rng.Intn(26))}) // not a path: resetDragFiles, forwarded
+		if err != nil {
+			return nil, err
+		}
+		obs["key"] = c05Obs(kc)
+		time.Sleep(350 * time.Millisecond) // the delayed uploadDragFiles has looked at the flag by now
+		for i := 0; c05StackHas("(*TrzszFilter).uploadDragFiles") || c05StackHas("(*TrzszFilter).addDragFiles"); i++ {
+			if i > 10000 {
+				return nil, fmt.Errorf("uploadDragFiles still running 10s after the drop was cancelled")
+			}
+			time.Sleep(time.Millisecond)
+		}
+		e.emitMode(true, "drag3")
+		return obs, nil
+	}
 	waitOther := func(n int64, what string) error {
 		for i := 0; e.srvOther.Load() < before+n; i++ {
 			if i > 20000 {
@@ -1368,7 +1385,7 @@ func c05Plan(rng *rand.Rand, shard, nshards, rounds int, special bool) []*c05Sce
 				}
 			case 4: // drag upload (needs the option)
 				if o.Drag {
-					v := (k + r) % 2
+					v := []int{0, 1, 3}[(k+r)%3]
 					sc.Name = fmt.Sprintf("drag%d", v)
 					sc.Steps = append(sc.Steps, c05Probes(rng, o, 2)...)
 					sc.Steps = append(sc.Steps, c05Step{A: "drag", V: v})
